@@ -168,81 +168,15 @@ MINT = "terraswap_pair::helpers::compute_lp_mint_amount_for_stableswap_deposit"
 CD = "terraswap_pair::helpers::compute_d"
 
 
-def _swap_params(sh, a, b):
-    if isinstance(sh, str):
-        A, B = "param(%d)" % a, "param(%d)" % b
-        return sh.replace(A, "\x00").replace(B, A).replace("\x00", B)
-    return tuple(_swap_params(x, a, b) if isinstance(x, (tuple, str)) else x for x in sh)
-
-
 def check_deposit_helpers(ctx, model):
     """Y4: inside the stableswap mint helper the initial invariant is compute_d(pool0, pool1), the new one is
     compute_d(pool0 + deposit0, pool1 + deposit1) -- each reserve grows by the deposit of the SAME index (the parameter
     roles are those fixed at the call site by Y3) -- and the minted amount is supply * (d1 - d0) / d0.
-    Y5: compute_d treats its two reserves symmetrically: the multiset of operator trees that consume them is invariant
-    under exchanging the two parameters (D is a symmetric function; using one reserve twice is not)."""
-    from collections import Counter
-    from ..dataflow import expr_shape, norm_shape
+    Y5: compute_d treats its two reserves symmetrically (D is a symmetric function; using one reserve twice is not)."""
+    from .stablemath import check_mint_helper, check_symmetric
     v = ctx.view(MINT, "C03-Y4")
     if v is not None:
-        cds = v.calls_to(r"^%s$" % re.escape(CD))
-        shapes = [[norm_shape(expr_shape(v, a, v.at_term(b), depth=3)) for a in t["args"][1:3]] for b, t in cds]
-        want0 = ["param(4)", "param(5)"]
-        want1 = [norm_shape(("add", ("param(4)", "param(2)"))), norm_shape(("add", ("param(5)", "param(3)")))]
-        ok = len(cds) == 2 and sorted([shapes[0], shapes[1]], key=repr) == sorted([want0, want1], key=repr)
-        ctx.ob("C03-Y4", "%s|invariants-before-and-after" % MINT, ok,
-               "compute_d is applied to %s (expected %s and %s: pool_i + deposit_i)" % (shapes, want0, want1), v.where(cds[0][0]) if cds else v.where())
-        # minted amount = supply * (d1 - d0) / d0
-        d = {}
-        for b, t in cds:
-            sh = [norm_shape(expr_shape(v, a, v.at_term(b), depth=3)) for a in t["args"][1:3]]
-            d["d0" if sh == want0 else "d1"] = b
-        rets = []
-        for b, i, s_ in v.iter_stmts():
-            if s_["lhs"]["l"] == 0 and s_["rv"]["r"] == "agg" and s_["rv"].get("variant") == "Some":
-                rets.append(norm_shape(expr_shape(v, s_["rv"]["ops"][0], (b, i), depth=7)))
-
-        def leafify(sh):
-            # replace the compute_d sub-trees by the names d0 / d1
-            if isinstance(sh, str):
-                return sh
-            if sh[0] == "compute_d":
-                inner = [norm_shape(x) for x in sh[1][1:3]]
-                return "d0" if inner == want0 else ("d1" if inner == want1 else "d?")
-            return (sh[0], tuple(leafify(x) for x in sh[1])) + tuple(sh[2:])
-        got = [norm_shape(leafify(r)) for r in rets]
-        want = norm_shape(("div", (("mul", ("param(6)", ("sub", ("d1", "d0")))), "d0")))
-        ctx.ob("C03-Y4", "%s|mint=supply*(d1-d0)/d0" % MINT, got == [want], "minted amount computed as %s (expected %s)" % (got, want), v.where())
+        check_mint_helper(ctx, "C03-Y4", v, r"^%s$" % re.escape(CD), dep=(2, 3), pool=(4, 5), supply=6, key=MINT)
     w = ctx.view(CD, "C03-Y5")
     if w is not None:
-        # nodes: call sites one of whose arguments IS a reserve parameter; signature = (normalised node, sorted consumers of
-        # the node's result as (callee, argument position))
-        def sig(swap):
-            out = Counter()
-            for b, t in w.iter_calls():
-                leaves = []
-                hit = False
-                for a in t["args"]:
-                    os_ = w.origins_of_operand(a, at=w.at_term(b))
-                    if len(os_) == 1 and all(o.kind == "param" and o.a in (2, 3) and not o.proj for o in os_):
-                        hit = True
-                    leaves.append(norm_shape(expr_shape(w, a, w.at_term(b), depth=0)))
-                if not hit:
-                    continue
-                node = norm_shape((re.sub(r"^.*::", "", mname(t)), tuple(leaves)))
-                me = "%s:bb%d" % (w.path, b)
-                cons = []
-                for cb, ct in w.iter_calls():
-                    for ai, a in enumerate(ct["args"]):
-                        os_ = w.origins_of_operand(a, at=w.at_term(cb))
-                        if os_ and all(o.kind == "call" and o.b == me for o in os_):
-                            cons.append((re.sub(r"^.*::", "", mname(ct)), ai))
-                if swap:
-                    node = norm_shape(_swap_params(node, 2, 3))
-                out[(repr(node), tuple(sorted(cons)))] += 1
-            return out
-        trees, swapped = sig(False), sig(True)
-        diff = sorted(map(repr, (trees - swapped).elements())) + sorted(map(repr, (swapped - trees).elements()))
-        ctx.ob("C03-Y5", "%s|symmetric-in-the-two-reserves" % CD, bool(trees) and not diff,
-               ("operations applied to the reserves and the consumers of their results are invariant under exchanging the reserves: %s" % sorted(map(repr, trees))) if not diff else
-               "not symmetric: %s" % diff[:6], w.where())
+        check_symmetric(ctx, "C03-Y5", w, (2, 3), CD)
